@@ -29,6 +29,18 @@ CHECKS = {
   note='Trusted: file operations are recognised by method name (touch/mkdir/unlink/write_csv/to_json/...); '
        'os.replace is atomic; pandas CSV semantics for quoted fields.',
   ref='DESIGN.md §2 C16'),
+ 'C06': dict(
+  technique='interprocedural may-alias/mutation dataflow over all functions (dataset ownership tags, summaries to a '
+            'fixpoint), class field models for eq/hash consistency and value-class store discipline, CFG dominance '
+            'of validators',
+  text='M1 covers every function of the package (not only those a test calls): an in-place write that can reach the '
+       'DataFrame of a model passed by an API caller is reported with its alias chain and an entry point. M2/M3 decide '
+       'the eq/hash/copy clauses from the class sources; M4/M5 decide that the unique-name and bounds validators '
+       'cannot be bypassed by concatenation or by a path through create(). Necessary conditions; run-time '
+       'well-formedness of computed values and code generation are not decided.',
+  note='Unresolved callees (external libraries, dynamic dispatch) are assumed not to mutate their arguments (documented '
+       'false-negative direction); column/row views of a DataFrame are not tracked; pandas mutator table is explicit.',
+  ref='DESIGN.md §2 C06, Appendix A'),
 }
 NA = {}
 
